@@ -93,6 +93,8 @@ pub enum IncStyle {
     Angle,
     /// `include `NAME  where NAME is a macro whose body is the quoted file name
     Macro(String),
+    /// `NAME  where NAME is a macro whose body is the whole directive (`define NAME `include "f")
+    ViaBody(String),
 }
 
 #[derive(Clone, Debug)]
@@ -296,6 +298,11 @@ pub fn render_items(items: &[Item], out: &mut String, side: &mut Side) {
                 out.push_str("`endif");
                 out.push_str(&c.ws_after_endif);
             }
+            Item::Include { style: IncStyle::ViaBody(m), ws_after, .. } => {
+                out.push('`');
+                out.push_str(m);
+                out.push_str(ws_after);
+            }
             Item::Include { name, style, ws_after, .. } => {
                 out.push_str("`include ");
                 match style {
@@ -313,6 +320,7 @@ pub fn render_items(items: &[Item], out: &mut String, side: &mut Side) {
                         out.push('`');
                         out.push_str(m);
                     }
+                    IncStyle::ViaBody(_) => unreachable!(),
                 }
                 out.push_str(ws_after);
             }
